@@ -85,20 +85,29 @@ def run(ctx):
     cost = {"commit": 24, "plain": 15, "native": 3}
     cases.sort(key=lambda c: -(cost[c["mode"]] * c["k"] + (200 if c.get("sys") else 0)))
     ctx.extra["cases"] = len(cases)
-    nsh = common.NCPU
-    shards = [[] for _ in range(nsh)]
-    load = [0] * nsh
-    for c in cases:
-        j = load.index(min(load))
-        shards[j].append(c)
-        load[j] += cost[c["mode"]] * c["k"] + (200 if c.get("sys") else 0)
 
-    def one(i):
-        return ctx.run_driver("wrapper", {"part": "accept", "accept": shards[i], "shard": i}, tag="acc-%d" % i, timeout=3500)
+    def balance(cs, nsh):
+        shards = [[] for _ in range(nsh)]
+        load = [0] * nsh
+        for c in cs:
+            j = load.index(min(load))
+            shards[j].append(c)
+            load[j] += cost[c["mode"]] * c["k"] + (200 if c.get("sys") else 0)
+        return [sh for sh in shards if sh]
 
-    with ThreadPoolExecutor(max_workers=nsh) as ex:
-        for rr in ex.map(one, [i for i in range(nsh) if shards[i]]):
-            ctx.absorb(rr, "wrapper")
+    # memory: a whole-verifier run under the commit checker with many query rounds holds every collected check (up to 10 GB), a real
+    # builder 3-5 GB: those run four at a time, everything else on all cores
+    heavy = [c for c in cases if c.get("sys") or (c["mode"] == "commit" and c["k"] >= 10)]
+    light = [c for c in cases if not (c.get("sys") or (c["mode"] == "commit" and c["k"] >= 10))]
+    for part, cs, nw in (("heavy", heavy, 4), ("light", light, common.NCPU)):
+        shards = balance(cs, nw)
+
+        def one(i, shards=shards, part=part):
+            return ctx.run_driver("wrapper", {"part": "accept", "accept": shards[i], "shard": i}, tag="acc-%s-%d" % (part, i), timeout=7000)
+
+        with ThreadPoolExecutor(max_workers=nw) as ex:
+            for rr in ex.map(one, range(len(shards))):
+                ctx.absorb(rr, "wrapper")
 
 
 def replay(ctx, rec):
